@@ -182,6 +182,9 @@ struct Lowerer {
 
     /// A buffer to be added into query tables
     table_buffer: Vec<TableDecl>,
+
+    /// lowering the interpolated expressions of an s-string (where a table name may be spliced in)
+    in_interpolation: bool,
 }
 
 #[derive(Clone, EnumAsInner, Debug)]
@@ -209,6 +212,7 @@ impl Lowerer {
             window: None,
             pipeline: Vec::new(),
             table_buffer: Vec::new(),
+            in_interpolation: false,
         }
     }
 
@@ -892,6 +896,27 @@ impl Lowerer {
                     let cid = self.lookup_cid(id, Some(&ident.name)).with_span(span)?;
 
                     rq::ExprKind::ColumnRef(cid)
+                } else if matches!(
+                    self.root_mod.module.get(&ident).map(|d| &d.kind),
+                    Some(DeclKind::Module(_) | DeclKind::LayeredModules(_))
+                ) {
+                    // the name resolved to a module: not a value
+                    return Err(Error::new(Reason::Expected {
+                        who: None,
+                        expected: "a value".to_string(),
+                        found: format!("module `{ident}`"),
+                    })
+                    .with_span(span));
+                } else if !self.in_interpolation
+                    && expr.ty.as_ref().is_some_and(|t| t.is_relation())
+                {
+                    // the name resolved to a relation variable (let-table, database table); only an
+                    // s-string may splice a table name in
+                    return Err(
+                        Error::new_simple("table variable cannot be used as a scalar value")
+                            .push_hint("use a join instead, or inline the subquery")
+                            .with_span(span),
+                    );
                 } else {
                     // fallback: unresolved ident
                     // Let's hope that the database engine can resolve it.
@@ -996,7 +1021,8 @@ impl Lowerer {
         &mut self,
         items: Vec<InterpolateItem<pl::Expr>>,
     ) -> Result<Vec<InterpolateItem<rq::Expr>>> {
-        items
+        let outer = std::mem::replace(&mut self.in_interpolation, true);
+        let res = items
             .into_iter()
             .map(|i| {
                 Ok(match i {
@@ -1007,7 +1033,9 @@ impl Lowerer {
                     },
                 })
             })
-            .try_collect()
+            .try_collect();
+        self.in_interpolation = outer;
+        res
     }
 
     fn lookup_cid(&mut self, id: usize, name: Option<&String>) -> Result<CId> {
